@@ -93,11 +93,11 @@ Inductive iter_case (idem : bool) (e : env) (next : bool) (st1 : rstate) (f : na
     o = answer e (sent st1) h ->
     (rp = match o with
           | OResult => RpResult h (sent st1)
-          | OError _ | OUnprepared PrepSendFail => RpError h (sent st1)
+          | OError _ => RpError h (sent st1)
           | _ => RpConnLost
           end) ->
     (match o with
-     | OResult | OUnprepared PrepSendFail => True
+     | OResult => True
      | OError m => handle_error idem m (retry st1) <> dec_RetryNext /\
                    handle_error idem m (retry st1) <> dec_RetrySame
      | OUnprepared PrepLost | OLost => idem = false
@@ -111,7 +111,7 @@ Inductive iter_case (idem : bool) (e : env) (next : bool) (st1 : rstate) (f : na
      | OError m => (handle_error idem m (retry st1) = dec_RetryNext /\ next' = true /\ inc = true) \/
                    (handle_error idem m (retry st1) = dec_RetrySame /\ next' = false /\ inc = true)
      | OUnprepared PrepOk => next' = false /\ inc = false
-     | OUnprepared PrepErr => next' = true /\ inc = false
+     | OUnprepared PrepErr | OUnprepared PrepSendFail => next' = true /\ inc = false
      | OUnprepared PrepLost | OLost => idem = true /\ next' = true /\ inc = false
      | _ => False
      end) ->
@@ -147,7 +147,8 @@ Proof.
       * destruct (exec f true e true (bump st1 true false)) as [t r] eqn:E.
         rewrite <- Ho. eapply IcCont; eauto. rewrite Ho. auto.
       * rewrite <- Ho. eapply IcFinal; eauto; rewrite Ho; auto.
-    + rewrite <- Ho. eapply IcFinal; eauto; rewrite Ho; auto.
+    + destruct (exec f idem e true (bump st1 true false)) as [t r] eqn:E.
+      rewrite <- Ho. eapply IcCont; eauto. rewrite Ho. auto.
   - destruct idem.
     + destruct (exec f true e true (bump st1 true false)) as [t r] eqn:E.
       rewrite <- Ho. eapply IcCont; eauto. rewrite Ho. auto.
@@ -212,6 +213,9 @@ Proof.
            rewrite Hre. destruct next; cbn [b2n negb] in *; lia.
         -- match goal with H : _ /\ _ /\ _ |- _ => destruct H as (_ & -> & ->) end.
            assert (Hre : reexecs (Sent next h (sent st1) (OUnprepared PrepLost) :: t0) = reexecs t0) by reflexivity.
+           rewrite Hre. destruct next; cbn [b2n negb] in *; lia.
+        -- match goal with H : _ /\ _ |- _ => destruct H as (-> & ->) end.
+           assert (Hre : reexecs (Sent next h (sent st1) (OUnprepared PrepSendFail) :: t0) = reexecs t0) by reflexivity.
            rewrite Hre. destruct next; cbn [b2n negb] in *; lia.
       * match goal with H : _ /\ _ /\ _ |- _ => destruct H as (_ & -> & ->) end.
         assert (Hre : reexecs (Sent next h (sent st1) OLost :: t0) = reexecs t0) by reflexivity.
